@@ -109,6 +109,9 @@ def choose(
         polynomial([q0, q1, q1**2])
 
     """
+    if isinstance(choices, (list, tuple)):
+        # the choice arrays are broadcast against each other, like numpy does.
+        choices = numpoly.stack(numpoly.broadcast_arrays(*choices), axis=0)
     choices = numpoly.aspolynomial(choices)
     a = numpy.asarray(a)
     # a 0-d selection comes back as a numpy.void scalar, not as an array.
